@@ -24,6 +24,9 @@ type FaultCase struct {
 	Kind string   `json:"kind"` // create-db | put-new | put-version | activate | delete-version | delete
 	Arg  int      `json:"arg"`  // picks among candidates
 	Val  []byte   `json:"val"`
+	// the database path is a symbolic link to the real file in the same directory (a legal, if
+	// uncommon, way to place the file): nothing changes about what must hold
+	Symlink bool `json:"symlink,omitempty"`
 }
 
 type faultResult struct {
@@ -139,7 +142,12 @@ func runC04(t *testing.T, c FaultCase) (*h.Violation, h.Info) {
 		os.MkdirAll(dir, 0o700)
 		path = filepath.Join(dir, "db")
 		if !create {
-			os.WriteFile(path, preBytes, 0o600)
+			if c.Symlink {
+				os.WriteFile(path+".real", preBytes, 0o600)
+				os.Symlink("db.real", path)
+			} else {
+				os.WriteFile(path, preBytes, 0o600)
+			}
 		}
 		return
 	}
@@ -292,6 +300,25 @@ func judge(f Fault, o runOut, path string, create bool, op dbx.Op, preBytes []by
 		if got != preR && got != postR {
 			return h.V("after-a-kill-complete-pre-or-post-state", "after the kill the file holds\n    %s\n  pre-call state\n    %s\n  post-call state\n    %s", got, preR, postR)
 		}
+		// life goes on after the restart: the next saves - each SMALLER than the one that was
+		// interrupted - must leave a file that opens with exactly what is served
+		d, err := dbx.OpenDiscard(path, key)
+		if err != nil {
+			return h.V("after-a-kill-the-file-opens", "second open after the kill: %v", err)
+		}
+		kv, err := dbx.Dump(d)
+		if err != nil {
+			return h.V("after-a-kill-the-file-opens", "dump after the kill: %v", err)
+		}
+		su := dbx.Super()
+		for _, n := range kv.Names() {
+			if r := (dbx.DBTarget{D: d}).Do(su, dbx.Op{Kind: "del", Name: n}, 0); r.Class != model.OK {
+				return h.V("later-calls-succeed-normally", "after the kill and a restart, delete(%q) failed: %s", n, r.Err)
+			}
+		}
+		if again, err := openDump(); err != nil || again != (model.KV{}).Render(false) {
+			return h.V("after-a-kill-the-file-opens", "after the kill, a restart and deleting every secret (saves smaller than the interrupted one), the file holds %q / does not open: %v", again, err)
+		}
 		return nil
 	}
 	// not killed: the call returned
@@ -401,7 +428,7 @@ func (c *counter) Load() int64 { c.mu.Lock(); defer c.mu.Unlock(); return c.n }
 var c04Kinds = []string{"create-db", "put-new", "put-version", "activate", "delete-version", "delete"}
 
 func genFaultCase(rt *rapid.T) FaultCase {
-	c := FaultCase{Kind: rapid.SampledFrom(c04Kinds).Draw(rt, "kind"), Arg: rapid.IntRange(0, 5).Draw(rt, "arg"), Val: rapid.SliceOfN(rapid.Byte(), 0, 40).Draw(rt, "val")}
+	c := FaultCase{Kind: rapid.SampledFrom(c04Kinds).Draw(rt, "kind"), Arg: rapid.IntRange(0, 5).Draw(rt, "arg"), Val: rapid.SliceOfN(rapid.Byte(), 0, 40).Draw(rt, "val"), Symlink: rapid.IntRange(0, 3).Draw(rt, "symlink") == 0}
 	base := []dbx.Op{{Kind: "put", Name: "a", Val: []byte("x")}, {Kind: "put", Name: "a", Val: []byte("y")}, {Kind: "put", Name: "b", Val: []byte("z")}}
 	more := rapid.SliceOfN(rapid.Custom(func(rt *rapid.T) dbx.Op {
 		return dbx.GenOp(rt, []string{"a", "b", "dev/c"}, []string{"put", "put", "activate", "delver", "del"}, 1)
@@ -416,7 +443,7 @@ func genFaultCase(rt *rapid.T) FaultCase {
 
 var c04 = &h.Campaign[FaultCase]{
 	Prop: "C04", Sub: "faults",
-	Rule: "rapid draws (pre-state history, kind of mutating call incl. database creation); for each, a child process performs the call under strace: a dry run yields the exact file-system syscalls of the save window, then the COMPLETE plan is executed, one child per fault: every errno of a per-syscall list injected at every window position, SIGKILL before every position and after the last, and real short writes (RLIMIT_FSIZE at 0/1/half/len-1 bytes) alone and followed by SIGKILL; kill => the file opens and holds the complete pre- or post-state; error => result, served state, a following call and the file agree with all-or-nothing - for every other fault the following call is the IDENTICAL call repeated at once, which must succeed and be on disk at that moment; the un-faulted trace is monitored for: payload written to a file other than the live one, that file fsynced before it is renamed over the live file; every trace, faulted or not, for: the live file never opened for writing or truncated; non-trivial = a case in which faults really fired inside the window (checked in strace's log); the evidence also counts distinct fired (op kind, syscall, position, fault type) tuples",
+	Rule: "rapid draws (pre-state history, kind of mutating call incl. database creation); for each, a child process performs the call under strace: a dry run yields the exact file-system syscalls of the save window, then the COMPLETE plan is executed, one child per fault: every errno of a per-syscall list injected at every window position, SIGKILL before every position and after the last, and real short writes (RLIMIT_FSIZE at 0/1/half/len-1 bytes) alone and followed by SIGKILL; kill => the file opens and holds the complete pre- or post-state, and after a restart further (smaller) saves leave a file that opens; in one case of four the database path is a symbolic link; error => result, served state, a following call and the file agree with all-or-nothing - for every other fault the following call is the IDENTICAL call repeated at once, which must succeed and be on disk at that moment; the un-faulted trace is monitored for: payload written to a file other than the live one, that file fsynced before it is renamed over the live file; every trace, faulted or not, for: the live file never opened for writing or truncated; non-trivial = a case in which faults really fired inside the window (checked in strace's log); the evidence also counts distinct fired (op kind, syscall, position, fault type) tuples",
 	Quick: 24, Thorough: 2000,
 	Gen:   genFaultCase,
 	Run:   runC04,
